@@ -6,6 +6,7 @@ import (
 	"github.com/metrico/qryn/reader/logql/logql_transpiler_v2/internal_planner"
 	"github.com/metrico/qryn/reader/logql/logql_transpiler_v2/shared"
 	"github.com/metrico/qryn/reader/plugins"
+	sql "github.com/metrico/qryn/reader/utils/sql_select"
 	"reflect"
 )
 
@@ -29,13 +30,13 @@ func Plan(script *logql_parser.LogQLScript) (shared.RequestProcessorChain, error
 
 	var proc shared.RequestProcessor
 	if breakpoint == BreakpointNo || clickhouse_planner.AnalyzeMetrics15sShortcut(script) {
-		plan, err := clickhouse_planner.Plan(script, true)
+		_, err := clickhouse_planner.Plan(script, true)
 		if err != nil {
 			return nil, err
 		}
 
 		proc = &shared.ClickhouseGetterPlanner{
-			ClickhouseRequestPlanner: plan,
+			ClickhouseRequestPlanner: &freshSQLPlanner{script: script, finalize: true},
 			Matrix:                   script.StrSelector == nil,
 		}
 
@@ -44,12 +45,12 @@ func Plan(script *logql_parser.LogQLScript) (shared.RequestProcessorChain, error
 		if err != nil {
 			return nil, err
 		}
-		plan, err := clickhouse_planner.Plan(chScript, false)
+		_, err = clickhouse_planner.Plan(chScript, false)
 		if err != nil {
 			return nil, err
 		}
 		proc = &shared.ClickhouseGetterPlanner{
-			ClickhouseRequestPlanner: plan,
+			ClickhouseRequestPlanner: &freshSQLPlanner{script: chScript, finalize: false},
 			Matrix:                   chScript.StrSelector == nil,
 		}
 
@@ -61,6 +62,23 @@ func Plan(script *logql_parser.LogQLScript) (shared.RequestProcessorChain, error
 
 	proc, err = MatrixPostProcessors(script, proc)
 	return shared.RequestProcessorChain{proc}, err
+}
+
+// freshSQLPlanner builds the ClickHouse planner tree anew for every execution. The planners of
+// that tree keep per-execution state (rewritten filter values, cached WITH clauses bound to the
+// first window), so a prepared chain that is executed repeatedly - as Tail does every second -
+// must not reuse one tree.
+type freshSQLPlanner struct {
+	script   *logql_parser.LogQLScript
+	finalize bool
+}
+
+func (f *freshSQLPlanner) Process(ctx *shared.PlannerContext) (sql.ISelect, error) {
+	plan, err := clickhouse_planner.Plan(f.script, f.finalize)
+	if err != nil {
+		return nil, err
+	}
+	return plan.Process(ctx)
 }
 
 func MatrixPostProcessors(script *logql_parser.LogQLScript,
